@@ -90,3 +90,11 @@ Theorem C06_objective_is_db_value : forall c acts t z,
   db_get (t_name t) (w_db (run c acts)) = Some (Some z).
 Proof. exact objective_is_db_value. Qed.
 Print Assumptions C06_objective_is_db_value.
+
+(* The step monitor evaluated on the implementation's projected states (Succeeded exclusive and with a value, terminal
+   conditions permanent) holds on the model's own projected states for every history. *)
+From KV Require Proofs.MonSound Corr.WorldMon.
+Theorem C06_monitor_sound : forall w acts,
+  Inv w -> no_teardown acts -> WorldMon.all_steps WorldMon.trial_step (WorldC.project w) (MonSound.msteps w acts) = true.
+Proof. exact MonSound.trial_steps_model. Qed.
+Print Assumptions C06_monitor_sound.
